@@ -1,8 +1,10 @@
 package props
 
 import (
+	"bytes"
 	"encoding/binary"
 	"fmt"
+	"github.com/pion/turn/v5"
 	"math/rand"
 	"net"
 	"runtime"
@@ -432,6 +434,11 @@ func init() {
 
 				return
 			}
+			if caseNo%40 == 20 || caseNo%40 == 21 {
+				runC09ClientStream(t, rng, rec, tier, caseNo/40*2+caseNo%40-20)
+
+				return
+			}
 			if caseNo%40 == 16 || caseNo%40 == 18 || caseNo%40 == 17 {
 				runC09HostileServer(t, rng, rec, tier, caseNo%40)
 
@@ -567,6 +574,79 @@ func runC09HostileServer(t *testing.T, rng *rand.Rand, rec *sim.Rec, tier string
 	}
 	x.liveness("after-hostile-438")
 	rec.SetSample(map[string]any{"kind": "client-vs-server-that-always-answers-438", "phase": which})
+}
+
+// runC09ClientStream: a real client whose link to the server is a TCP stream (turn.NewSTUNConn)
+// receives bytes that cannot begin a frame, a truncated frame followed by EOF, or valid frames
+// followed by garbage. Its read loop must end (or carry on) without spinning, and Close returns.
+func runC09ClientStream(t *testing.T, rng *rand.Rand, rec *sim.Rec, tier string, caseNo int) {
+	n := simnet.New()
+	defer n.CloseAll()
+	l, err := n.ListenTCP(sim.ServerIP4, 3478)
+	if err != nil {
+		t.Fatal(err)
+	}
+	ctrl, err := n.DialTCP(net.IPv4(10, 1, 1, 1).To4(), 0, l.TCPAddr())
+	if err != nil {
+		t.Fatal(err)
+	}
+	srvEnd, err := l.Accept()
+	if err != nil {
+		t.Fatal(err)
+	}
+	logs := sim.NewLogSink()
+	logs.Budget = 200000
+	cl, err := turn.NewClient(&turn.ClientConfig{
+		STUNServerAddr: "10.0.0.1:3478", TURNServerAddr: "10.0.0.1:3478", Conn: turn.NewSTUNConn(ctrl),
+		Username: "alice", Password: "pw-a", Realm: "verif.test", RTO: 100 * time.Millisecond,
+		Net: &simnet.VNet{N: n, HostIP4: net.IPv4(10, 1, 1, 1).To4()}, LoggerFactory: logs,
+	})
+	if err != nil {
+		t.Fatal(err)
+	}
+	if err := cl.Listen(); err != nil {
+		t.Fatal(err)
+	}
+	kind := []string{"garbage", "stun-no-cookie", "valid-then-garbage", "truncated-then-eof", "chan-out-of-range"}[caseNo%5]
+	var in []byte
+	switch kind {
+	case "garbage":
+		in = make([]byte, 20+rng.Intn(60))
+		rng.Read(in)
+		in[0] |= 0x80
+	case "stun-no-cookie":
+		in = make([]byte, 24+rng.Intn(20))
+		rng.Read(in)
+		in[0] &= 0x3F
+		in[4] ^= 0xFF
+	case "valid-then-garbage":
+		b := wire.NewBuilder(wire.MethodBinding, wire.ClassSuccess, [12]byte{1, 2, 3})
+		b.AddXorAddr(wire.AttrXORMappedAddress, net.IPv4(10, 1, 1, 1).To4(), 1234)
+		in = append(b.Bytes(), bytes.Repeat([]byte{0xFF}, 24+rng.Intn(40))...)
+	case "truncated-then-eof":
+		in = wire.EncodeChannelData(0x4001, make([]byte, 100), true)[:20+rng.Intn(60)]
+	case "chan-out-of-range":
+		in = wire.EncodeChannelData(uint16(0x8000+rng.Intn(0x7FFF)), make([]byte, 32), true)
+	}
+	_, _ = srvEnd.Write(in)
+	if kind == "truncated-then-eof" {
+		_ = srvEnd.Close()
+	}
+	// virtual time only passes if nothing in the bubble is runnable: a spinning read loop would
+	// keep this sleep from ever returning (the wall-clock watchdog then names the spinning frames)
+	time.Sleep(2 * time.Second)
+	done := make(chan struct{})
+	go func() { cl.Close(); close(done) }()
+	select {
+	case <-done:
+	case <-time.After(30 * time.Second):
+		rec.Violate("client-blocked", "stream/"+kind, "Client.Close did not return after the stream delivered %s", kind)
+	}
+	_ = srvEnd.Close()
+	_ = ctrl.Close()
+	rec.Ev("client-stream-inputs")
+	rec.FP("client/stream/%s", kind)
+	rec.SetSample(map[string]any{"kind": "client-over-tcp-stream", "input": kind, "bytes": len(in)})
 }
 
 // runC09Client hands hostile datagrams to a real client's inbound path, directly through
